@@ -170,6 +170,29 @@ struct WithKey {
 	template <class T> bool raw(T& v) { return ar.SerializeValue(key, v); }
 };
 
+// The way applications pass keys: a C string through KeyValue (`ar << KeyValue("name", value)`), which takes the archive's
+// `const char*` / key-adaptation path instead of the std::string overloads used by WithKey. The result is taken from the
+// `isLoaded` flag handed to validators. Selected with keyMode() = 1.
+inline int& keyMode() { static int m = 0; return m; }
+template <class T, class... Ts> constexpr bool tupleHasImpl(const std::tuple<Ts...>*) { return (std::is_same_v<T, Ts> || ...); }
+template <class T, class Tuple> constexpr bool tupleHas() { return tupleHasImpl<T>(static_cast<const Tuple*>(nullptr)); }
+template <class A>
+struct ViaKeyValue {
+	A& ar; const char* key;
+	template <class T> static constexpr bool canValue() { return WithKey<A, std::string>::template canValue<T>(); }
+	static constexpr bool canObject = WithKey<A, std::string>::canObject;
+	static constexpr bool canArray = WithKey<A, std::string>::canArray;
+	template <class T> bool operator()(T& v) {
+		bool res = false;
+		auto rec = [&res](const auto&, bool isLoaded) -> std::optional<std::string> { res = isLoaded; return std::nullopt; };
+		// archives that list `const char*` among their key types get the pointer, the others a std::string (still through KeyValue and its validator path)
+		if constexpr (tupleHas<const char*, typename A::supported_key_types>()) ar << BS::KeyValue(key, v, rec);
+		else ar << BS::KeyValue(std::string(key), v, rec);
+		return res;
+	}
+	template <class T> bool raw(T& v) { return ar.SerializeValue(std::string(key), v); }
+};
+
 // canonical state of an open scope, for model-checking evidence; specialised by harnesses
 // that read private cursor fields (-fno-access-control). 0 = not observable.
 template <class A> struct ScopeProbe { static uint64_t state(A&) { return 0; } };
@@ -247,7 +270,7 @@ void ObjRef::Serialize(A& ar) {
 						} else r.unsupported = true;
 					} else {
 						switch (r.key.t) {
-						case Key::S: runGet(ar, r, r.key.s); break;
+						case Key::S: if (keyMode() == 1) dispatch<A>(r.target[0], ViaKeyValue<A>{ar, r.key.s.c_str()}); else runGet(ar, r, r.key.s); break;
 						case Key::I: runGet(ar, r, r.key.i); break;
 						case Key::U: runGet(ar, r, r.key.u); break;
 						case Key::F: runGet(ar, r, r.key.f); break;
@@ -260,7 +283,7 @@ void ObjRef::Serialize(A& ar) {
 			}
 			return;
 		}
-		for (auto& f : n.fields) dispatch<A>(f.second, WithKey<A>{ar, f.first});
+		for (auto& f : n.fields) { if (keyMode() == 1) dispatch<A>(f.second, ViaKeyValue<A>{ar, f.first.c_str()}); else dispatch<A>(f.second, WithKey<A>{ar, f.first}); }
 	}
 }
 
